@@ -290,7 +290,14 @@ pub fn check_pair(r: &R, s: &R, small: bool, o: &mut Outcome) {
         _ => true,
     };
     let m = match catch(|| cr.mul(&cs)) {
-        Ok(g) => Some(g),
+        Ok(g) => {
+            // documented: "if the result cannot be stored using u32 integers, this method will panic"
+            if !natural_fits {
+                o.fail("C15/mul/overflow-unnoticed", format!("{}.mul({}) returned {:?} although [lo*lo', hi*hi'] does not fit in u32: must panic", r.show(), s.show(), observe(&g).map(|x| x.show())));
+                return;
+            }
+            Some(g)
+        }
         Err(msg) => {
             if natural_fits || !is_overflow_panic(&msg) {
                 o.fail("C15/mul/panic", format!("{}.mul({}) panicked: {}", r.show(), s.show(), msg));
@@ -328,10 +335,13 @@ pub fn check_pair(r: &R, s: &R, small: bool, o: &mut Outcome) {
         // right_mul_is_exact(r, s)  <=>  union_{y in s} y*r  ==  r.mul(s)
         let k = union_of_multiples(r, s);
         let exact = k.len() == 1 && k[0] == (mobs.lo, mobs.hi);
-        let gap_term_fits = match r.hi {
-            Some(b) => s.lo * (b - r.lo) <= U32MAX,
-            None => true,
-        };
+        // The predicate is a boolean, so nothing it returns can overflow; the module documents a panic
+        // "in case of arithmetic overflow" of whatever intermediate the implementation forms. Which
+        // intermediate that is is not specified: a panic is tolerated whenever the largest product of
+        // two finite operand bounds exceeds u32 (no product of operand-derived quantities can overflow
+        // otherwise), and is a failure when even that product fits.
+        let big = |x: &R| x.hi.unwrap_or(x.lo);
+        let gap_term_fits = big(r) * big(s) <= U32MAX;
         match catch(|| cr.right_mul_is_exact(&cs)) {
             Ok(g) => {
                 if g != exact {
